@@ -914,13 +914,16 @@ class ObserverSpec(BfsSpec):
             S.count("probes_with_an_observer_attached")
         if len(st.model) < len(st.obs):
             S.count("probes_with_an_observer_not_attached")
-        real = self.canon(st)
+        real = self.canon(st)[0]
         if sorted(real) != sorted(st.model):
             S.problem("listeners after %s" % "the history", sorted(st.model), list(real))
 
     def canon(self, st):
         names = dict((id(o), n) for n, o in st.obs.items())
-        return tuple(names.get(id(l), "?") for l in st.seq.listeners)
+        # listener tuple, plus every other attribute of the sequencer object and its class (the
+        # recording stream is cleared before each step and is not state)
+        return (tuple(names.get(id(l), "?") for l in st.seq.listeners),
+                engine.deep_key(st.seq, exclude=("stream", "listeners")))
 
 
 def run_observers(case):
